@@ -375,6 +375,61 @@ class Fn:
         self._rescan()
         return len(edits)
 
+    def drop_tail_continues(self):
+        """R-continue (for loops only): a `continue;` after which nothing else of the loop body can
+        run -- it closes its block, and from there only closing braces and skipped `else` arms
+        lead to the end of the loop body -- is dropped.  Any other `continue` inside a `for`
+        raises LostAnchor (unsupported shape)."""
+        n = 0
+        while True:
+            done = True
+            for l in self.loops():
+                if l['kw'] != 'for':
+                    continue
+                for m in re.finditer(r'\bcontinue\s*;', self.mask[l['hdr_end']:l['body_close']]):
+                    a = l['hdr_end'] + m.start()
+                    # innermost loop owning this continue must be l
+                    inner = [x for x in self.loops() if x['hdr_end'] < a < x['body_close']]
+                    if inner and max(inner, key=lambda x: x['hdr_end']) is not l:
+                        continue
+                    j = l['hdr_end'] + m.end()
+                    ok = False
+                    while True:
+                        while self.mask[j].isspace():
+                            j += 1
+                        if self.mask[j] == '}':
+                            if j == l['body_close']:
+                                ok = True
+                                break
+                            j += 1
+                            continue
+                        em = re.match(r'else\b', self.mask[j:])
+                        if em:
+                            k = self.mask.index('{', j)
+                            # `else if cond {`: the first '{' at depth 0
+                            p = 0
+                            k = j
+                            while not (self.mask[k] == '{' and p == 0):
+                                if self.mask[k] == '(':
+                                    p += 1
+                                elif self.mask[k] == ')':
+                                    p -= 1
+                                k += 1
+                            j = match_close(self.mask, k) + 1
+                            continue
+                        break
+                    if not ok:
+                        raise LostAnchor('%s: `continue` in a for loop is not in tail position' % self.name)
+                    self.text = self.text[:a] + self.text[l['hdr_end'] + m.end():]
+                    self._rescan()
+                    n += 1
+                    done = False
+                    break
+                if not done:
+                    break
+            if done:
+                return n
+
     def strip_attrs_and_docs(self):
         """R-attr: drop doc comments and the listed harmless attributes in front
         of the fn and inside it."""
@@ -549,7 +604,12 @@ class Fn:
 
     def loop_body_start(self, k, text):
         l = self.loop(k)
-        self.insert(l['hdr_end'] + 1, '\n' + text.rstrip() + '\n', order=1)
+        pos = l['hdr_end'] + 1
+        # stay behind the `let x = *x__r;` that R-refpat puts first in the body
+        m = re.match(r'(\s*let [a-z_][a-z0-9_]* = \*[a-z_][a-z0-9_]*__r;)+', self.text[pos:])
+        if m:
+            pos += m.end()
+        self.insert(pos, '\n' + text.rstrip() + '\n', order=1)
 
     def loop_body_end(self, k, text):
         l = self.loop(k)
